@@ -210,6 +210,9 @@ class SimDevice:
         self.sign = None
         self.sign_log = []        # completed / aborted sign sessions as the device saw them
         self.next_signature = None
+        self.sig_from_hash = None     # callable(hash32) -> DER (replies traceable to requests, C12)
+        self.hb_msg_from_ud = None    # callable(ud) -> heartbeat message
+        self.exchange_delay = None    # callable() called at every APDU (C12: widen race windows)
         # advance / ancestor
         self.block_policy = FaithfulBlockPolicy()
         self.blk = None
@@ -251,6 +254,8 @@ class SimDevice:
 
     # ------------------------------------------------------------------ dispatcher
     def handle(self, apdu):
+        if self.exchange_delay is not None:
+            self.exchange_delay()
         for o in list(self.overrides):
             r = o(self, apdu)
             if r is not None:
@@ -371,6 +376,8 @@ class SimDevice:
         if op == 0x02:
             return 0x9000, h + hb["sig"]
         if op == 0x03:
+            if self.hb_msg_from_ud is not None and self.hb_ud is not None:
+                return 0x9000, h + self.hb_msg_from_ud(self.hb_ud)
             return 0x9000, h + hb["msg"]
         if op == 0x04:
             return 0x9000, h + hb["hash"]
@@ -452,7 +459,7 @@ class SimDevice:
             sess["auth"] = False
             if len(payload) != 21 + 32:
                 return self._sign_end("sw", 0x6A91)
-            sig = self.make_signature()
+            sig = self.sig_from_hash(payload[21:]) if self.sig_from_hash else self.make_signature()
             sess["result"] = "success"
             sess["sig"] = sig
             self.sign_log.append(sess)
